@@ -31,7 +31,8 @@ def verify(src, mid, tests):
     if os.path.exists(os.path.join(dst, "meta.json")):
         keep = json.load(open(os.path.join(dst, "meta.json"))).get("detection", {})
     for f in ("patch.diff", "demo.py", "meta.json"):
-        shutil.copy(os.path.join(src, f), os.path.join(dst, f))
+        if os.path.abspath(src) != os.path.abspath(dst):
+            shutil.copy(os.path.join(src, f), os.path.join(dst, f))
     if keep:
         m0 = json.load(open(os.path.join(dst, "meta.json")))
         m0["detection"] = keep
@@ -50,8 +51,8 @@ def verify(src, mid, tests):
         rc, out = sh(f"{PY} _seeded/x/demo.py", cwd=wt, timeout=1800)
         res["demo_with_patch_rc"] = rc
         res["demo_with_patch_tail"] = out.strip().splitlines()[-3:]
-        rc, out = sh(f"{PY} -m pytest -q -p no:cacheprovider --timeout=900 {tests} 2>&1 | tail -15", cwd=wt,
-                     timeout=5400)
+        rc, out = sh(f"{PY} -m pytest -q -p no:cacheprovider --timeout=3000 {tests} 2>&1 | tail -15", cwd=wt,
+                     timeout=14400)
         failed = [ln for ln in out.splitlines() if ln.startswith("FAILED")]
         unexpected = [ln for ln in failed if not any(k in ln for k in KNOWN_FAIL)]
         res["tests"] = tests
